@@ -16,13 +16,15 @@ pub fn dir() -> &'static UnixStr {
 }
 
 #[cfg(kani)]
-pub fn any_stdio() -> Option<Stdio> {
+pub fn any_stdio(raw: i32) -> Option<Stdio> {
     let k: u8 = kani::any();
     match k {
         0 => None, // default: inherit
         1 => Some(Stdio::Inherit),
         2 => Some(Stdio::MakePipe),
-        _ => Some(Stdio::RawFd(Fd::try_new(9).unwrap())),
+        // ownership of a raw descriptor passes to the command (it is closed in the caller once spawn is done),
+        // so each stream gets its own descriptor: handing the same one over twice would be the caller's double close
+        _ => Some(Stdio::RawFd(Fd::try_new(raw).unwrap())),
         // Stdio::Null opens the constant DEV_NULL (const fat pointer: outside Kani's subset)
     }
 }
@@ -69,14 +71,22 @@ pub mod proofs {
     #[kani::proof]
     #[kani::unwind(15)]
     pub fn c13_q_spawn_returns_only_in_the_caller() {
-        spawn_contract(false);
+        spawn_contract(0);
+    }
+
+    /// C12's quick variant: as above plus one symbolically chosen piped stream, so that spawn's pipe bookkeeping
+    /// (descriptor frame, no double close) is on some path
+    #[kani::proof]
+    #[kani::unwind(15)]
+    pub fn c13_p_spawn_descriptor_frame() {
+        spawn_contract(1);
     }
 
     /// thorough tier: additionally every stdio mode for stdin/stdout
     #[kani::proof]
     #[kani::unwind(15)]
     pub fn c13_t_spawn_returns_only_in_the_caller() {
-        spawn_contract(true);
+        spawn_contract(2);
     }
 
     /// index of the last recorded call with this number, or usize::MAX
@@ -136,12 +146,14 @@ pub mod proofs {
         kani::cover!(matches!(&got, Ok(None)), "try_wait reports nothing yet");
     }
 
-    fn spawn_contract(full: bool) {
+    fn spawn_contract(mode: u8) {
+        let full = mode == 2;
         kernel::reset();
         kernel::set_mode(kernel::MODE_FDS | kernel::MODE_PROC | kernel::MODE_SMALL_OR_ERR);
         kernel::set_call_budget(13);
         kernel::set_exit_check(child_exit_check);
         kernel::fd_preexisting(9);
+        kernel::fd_preexisting(10);
         let mut c = Command::new(bin()).unwrap();
         if kani::any() {
             c.cwd(dir());
@@ -156,19 +168,19 @@ pub mod proofs {
             c.pgroup(kani::any());
         }
         let mut pipes_handed_over = 0;
-        if !full && kani::any() {
+        if mode == 1 && kani::any() {
             // quick tier: one piped stream, so that the pipe bookkeeping of spawn is on some path
             pipes_handed_over += 1;
             c.stdin(Stdio::MakePipe);
         }
         if full {
-            if let Some(s) = any_stdio() {
+            if let Some(s) = any_stdio(9) {
                 if matches!(s, Stdio::MakePipe) {
                     pipes_handed_over += 1;
                 }
                 c.stdin(s);
             }
-            if let Some(s) = any_stdio() {
+            if let Some(s) = any_stdio(10) {
                 if matches!(s, Stdio::MakePipe) {
                     pipes_handed_over += 1;
                 }
